@@ -482,3 +482,24 @@ def r05_9(ctx):
 def r05_10(ctx):
     from .c17 import check_spline_quadrature
     check_spline_quadrature(ctx)
+
+
+@rule("R05.11", min_instances=1, desc="the collocation quadrature weights integrate constants exactly: DirectCollocation does not take B from the coefficient routine without checking (or computing) that the weights sum to one")
+def r05_11(ctx):
+    """casadi.collocation_coeff returns the weights of the interpolatory rule on [0] + tau with the weight of the extra node 0
+    dropped; that weight vanishes for every scheme/degree except a single Radau point (B = [0.5]), where every
+    ocp.integral and quadrature state is then halved."""
+    P = ctx.prog
+    f = P.own_method("DirectCollocation", "__init__")
+    sc = ctx.scope(f)
+    uses_B = any(isinstance(st, ast.Assign) and "self.B" in ast.unparse(st.targets[0]) for st in walk_no_nested(f.node))
+    checked = False
+    for n_ in walk_no_nested(f.node):
+        t = None
+        if isinstance(n_, (ast.If, ast.Assert)):
+            t = ast.unparse(n_.test)
+        if t and "self.B" in t and ("sum" in t) and "1" in t:
+            checked = True
+    computed = any(isinstance(st, ast.Assign) and ast.unparse(st.targets[0]) == "self.B" and "solve" in ast.unparse(st.value) for st in walk_no_nested(f.node))
+    ctx.check(uses_B and (checked or computed), "DirectCollocation quadrature weights sum to one", detail="weights taken from collocation_coeff unchecked: for degree=1, scheme='radau' they are [0.5] and every integral / quadrature state is halved",
+              expected="if the weights do not sum to 1: recompute them on the collocation points (moment conditions) or raise", found="no check of sum(self.B)", fi=f)
